@@ -924,11 +924,11 @@ def c02g(chk):
     lf = chk.fn("sfs_core::utils::factorial::ln_factorial")
     if lf is not None:
         cl = None
-        for c in prog.closures_of(lf.path):
+        for c in [lf] + prog.closures_of(lf.path):
             if an.calls(c, "sfs_core::utils::gamma::ln_gamma"):
                 cl = c
         ok = False
-        why = "fallback closure calling ln_gamma not found"
+        why = "fallback calling ln_gamma not found"
         if cl is not None:
             chk.fns_analysed.add(cl.path)
             b, t = an.calls(cl, "sfs_core::utils::gamma::ln_gamma")[0]
@@ -1768,14 +1768,41 @@ def c11b(chk):
     Z = {}
     ok_zero, why = zeroing_summary(chk, chk.fn(SET_ZERO))
     chk.ob("C11.b", "Count::set_zero/zeroes-every-element", ok_zero, chk.fn(SET_ZERO).loc() if chk.fn(SET_ZERO) else "", why)
+    import iters as IT
+    uncond = lambda b: r.postdominates(b, 0)
     for b, t in r.calls():
-        tgt = an.arg_pointee(r, t, 0)
+        tgt = an.arg_pointee(r, t, 0) if t["args"] else None
         fld = an.self_field(tgt) if tgt else None
-        if fld and len(tgt[1]) == 2:
+        if fld and len(tgt[1]) == 2 and uncond(b):
+            nm = callee_name(t["callee"]).split("::")[-1]
             if callee_is(t["callee"], SET_ZERO) and ok_zero:
                 Z[fld] = "set_zero"
-            elif callee_is(t["callee"], N.VEC_CLEAR):
+            elif callee_is(t["callee"], N.VEC_CLEAR) or nm == "clear":
                 Z[fld] = "clear"
+            elif nm == "truncate" and len(t["args"]) == 2 and const_val(t["args"][1]) == 0:
+                Z[fld] = "truncate(0)"
+            elif nm == "fill" and len(t["args"]) == 2 and const_val(t["args"][1]) == 0:
+                Z[fld] = "fill(0)"
+    # a fresh value assigned to the field
+    for b, i, p_, rv, st_ in r.assigns():
+        fld = an.self_field(p_)
+        if fld and len(p_[1]) == 2 and uncond(b) and rv["k"] == "use":
+            l = op_local(rv["op"])
+            d = r.single_def(r.copy_root(l)) if l is not None else None
+            if d and d[0] == "call" and callee_name(d[2]["callee"]).split("::")[-1] in ("new", "default", "with_capacity") and not any(op_local(a) is not None for a in d[2]["args"]):
+                Z[fld] = "= fresh %s" % callee_name(d[2]["callee"]).split("::")[-1]
+    # every element of the field set to 0 in place
+    for it in IT.iterations(chk.prog, r):
+        if it.parent is not r or not uncond(it.bb) or not it.runs_for_every_element() or it.switches():
+            continue
+        ch = it.chain()
+        src = ch[-1][1]
+        fld = an.self_field(src) if src is not None else None
+        if not fld or [n for n in IT.chain_names(ch) if n not in ("iter_mut",)]:
+            continue
+        zero = [1 for b2, i2, p2, rv2, s2 in it.assigns() if p2[1] and p2[1][-1] == ("deref",) and it.elem_path(p2) == () and rv2["k"] == "use" and const_val(rv2["op"]) == 0]
+        if zero:
+            Z[fld] = "every element = 0 (%s)" % it.kind
     exempt = {"reader": "stream cursor owned by the genotype reader", "projection": "scratch buffer, reset by project_unchecked (C11.c)"}
     for fld in sorted(W):
         if fld in exempt:
@@ -1785,8 +1812,9 @@ def c11b(chk):
                "field %s is written while reading a record (%s) and must be re-initialised by Reader::reset (reset covers: %s)" % (fld, sorted(W[fld]), Z))
     chk.extra["C11_written"] = sorted(W)
     chk.extra["C11_reset"] = Z
-    # reset has no conditional paths: all three resets on the single path
-    chk.ob("C11.b", "reset/straight-line", not list(r.switches()), r.loc(), "reset must perform its re-initialisations unconditionally")
+    # no re-initialisation is conditional: only actions that run on every path through reset were counted above, and reset has no early return
+    rets = [b for b in r.nodes() if r.term(b)["k"] == "return"]
+    chk.ob("C11.b", "reset/straight-line", len(rets) == 1 and len(Z) >= 1, r.loc(), "reset performs its re-initialisations unconditionally (single exit; only unconditional actions are accepted: %s)" % Z)
 
 
 def c11c(chk):
